@@ -458,19 +458,29 @@ theorem b2inv_agReport (s : State) (n c e m : String) (hA : AInv s) (hB : B2Inv 
         exact b2inv_wrap (B2E.trans' (b2e_storeFatal _ _) (b2e_reply _ _ _ _)) (by simp)
           (b2inv_agStep s a _ _ is e hA hB ha hp hnm hst.1 rfl)
 
-theorem b2inv_wakeAgent (s : State) (hA : AInv s) (hB : B2Inv s) : ∀ s', wakeAgent s = some s' → B2Inv s' := by
+theorem b2inv_renderWoken (l : Bool) (s : State) (hA : AInv s) (hB : B2Inv s) : ∀ s', renderWoken l s = some s' → B2Inv s' := by
+  intro s' h
+  unfold renderWoken at h
+  split at h
+  · cases h
+  · rename_i a hf
+    have ha : a ∈ s.agents := pickAgent_mem hf
+    cases h
+    apply b2inv_wrap (b2e_answer _ _ _ _) (by simp)
+    exact b2inv_repl_same a _ (b2e_setAgent _ _) (setAgent_agents _ _) hA.nodup ha rfl rfl (by simp [early]) hB
+
+theorem b2inv_wakeAgent (l : Bool) (s : State) (hA : AInv s) (hB : B2Inv s) : ∀ s', wakeAgent l s = some s' → B2Inv s' := by
   intro s' h
   unfold wakeAgent at h
   split at h
   · cases h
   · rename_i a hf
-    have ha : a ∈ s.agents := List.mem_of_find?_eq_some hf
+    have ha : a ∈ s.agents := pickAgent_mem hf
     dsimp only at h
     split at h
     · rename_i hst
       have hr : a.st = .ready := by simpa using hst
       cases h
-      apply b2inv_wrap (b2e_answer _ _ _ _) (by simp)
       exact b2inv_repl_same a _ (b2e_setAgent _ _) (setAgent_agents _ _) hA.nodup ha rfl rfl (by simp [early]) hB
     · cases h
       apply b2inv_wrap (b2e_answer _ _ _ _) (by simp)
@@ -897,16 +907,17 @@ theorem b2invO_platformMove (lifo : Bool) (s : State) (hA : AInv s) (hB : B2Inv 
     obtain ⟨f, _, hm⟩ := firstSome_spec _ _ _ hs
     exact B2InvO.of_b2eO hB (b2eO_flightMove s f) (flightMove_agents s f) s' hm
 
-theorem b2invO_wakeMove (s : State) (hA : AInv s) (hB : B2Inv s) : B2InvO (wakeMove s) := by
+theorem b2invO_wakeMove (l : Bool) (s : State) (hA : AInv s) (hB : B2Inv s) : B2InvO (wakeMove l s) := by
   intro s' hs
   unfold wakeMove orElse' at hs
   split at hs
   · rename_i x hx; cases hs; exact b2inv_wrap (b2e_wakeRt hx) (wakeRt_agents hx) hB
-  · exact b2inv_wakeAgent s hA hB s' hs
+  · exact b2inv_wakeAgent l s hA hB s' hs
 
 theorem b2invO_progress (v : Nat) (s : State) (hA : AInv s) (hB : B2Inv s) : B2InvO (progress v s) := by
   have hp := fun l => b2invO_platformMove l s hA hB
-  have hw := b2invO_wakeMove s hA hB
+  have hw := fun l => b2invO_wakeMove l s hA hB
+  have hr : ∀ l, B2InvO (renderWoken l s) := fun l => b2inv_renderWoken l s hA hB
   have hk := B2InvO.of_b2eO hB (b2eO_killMove s) (killMove_agents s)
   unfold progress
   splits <;> first
@@ -914,19 +925,22 @@ theorem b2invO_progress (v : Nat) (s : State) (hA : AInv s) (hB : B2Inv s) : B2I
     | (rw [b2invO_some]; apply b2inv_watchOne
        · show AInvL _; exact hA
        · refine b2inv_of_b2eo (Or.inr ?_) ?_ ?_ ?_ ?_ ?_ hB <;> first | rfl | simp)
-    | exact b2invO_orElse' hw (b2invO_orElse' (hp _) hk)
-    | exact b2invO_orElse' (hp _) (b2invO_orElse' hw hk)
-    | exact b2invO_orElse' (hp _) (b2invO_orElse' hk hw)
+    | exact b2invO_orElse' (b2invO_orElse' (hw _) (b2invO_orElse' (hp _) hk)) (hr _)
+    | exact b2invO_orElse' (b2invO_orElse' (hp _) (b2invO_orElse' (hw _) hk)) (hr _)
+    | exact b2invO_orElse' (b2invO_orElse' (hp _) (b2invO_orElse' hk (hw _))) (hr _)
+    | exact b2invO_orElse' (hr _) (b2invO_orElse' (hw _) (b2invO_orElse' (hp _) hk))
+    | exact b2invO_orElse' (hr _) (b2invO_orElse' (hp _) (b2invO_orElse' (hw _) hk))
+    | exact b2invO_orElse' (hr _) (b2invO_orElse' (hp _) (b2invO_orElse' hk (hw _)))
 
 theorem ab2inv_settle (v n : Nat) (s : State) (hA : AInv s) (hB : B2Inv s) : AInv (settle v n s) ∧ B2Inv (settle v n s) := by
-  induction n generalizing s with
+  induction n generalizing v s with
   | zero => exact ⟨hA, hB⟩
   | succ n ih =>
     unfold settle
     split
     · exact ⟨hA, hB⟩
     · rename_i s' hp
-      exact ih s' (ainvO_progress v s hA s' hp) (b2invO_progress v s hA hB s' hp)
+      exact ih _ s' (ainvO_progress v s hA s' hp) (b2invO_progress v s hA hB s' hp)
 
 theorem b2inv_applyOp (s : State) (o : Op) (hA : AInv s) (hB : B2Inv s) : B2Inv (applyOp s o) := by
   cases o with
